@@ -153,11 +153,14 @@ theorem public_protected_exported (m : Scope) (d : Decl) (hp : Perm.pub ∈ d.ac
   have ha : declAccessible m d = true := by simp [declAccessible, hp]
   rw [declExported_eq_accessible m d (fun h => hn h.2) (fun h => by have h2 := h.2; rw [ha] at h2; cases h2), ha]
 
-/-- The export filter of the model *is* the string table of the source: `_cleanup` keeps
-    `item.permission in exportedPermissions` (regenerated from ford/sourceform.py on every run),
-    the slot holds the word of the keyword met last (`declPerm`), and every statement of
-    `line_to_variables` / `process_attribs` that writes an access keyword into the slot accepts
-    exactly PUBLIC, PRIVATE and PROTECTED (so each of the three overwrites the others). -/
+/-- The export filter of the model *is* the filter of the working tree: `_cleanup` keeps the entities whose
+    `permission` is in `exportedPermissions`, the slot holds the word of the keyword met last (`declPerm`),
+    and at every place where the reader meets an access keyword - attribute list and access statement of a
+    variable, access statements about types, functions, subroutines, generic and abstract interfaces and
+    bodies of generic interfaces - exactly PUBLIC, PRIVATE and PROTECTED are written into the slot, alone
+    and over any earlier keyword (so each of the three overwrites the others).  Both tables are OBSERVED on
+    every run (translate/c06.py reads a stub source file with every keyword and every ordered pair of
+    keywords through the real `FortranSourceFile`), not read off the spelling of the source. -/
 theorem export_filter_is_source_table :
     (∀ m d, declExported m d = Generated.C06.exportedPermissions.contains (declPerm m d).word) ∧
     (∀ l ∈ Generated.C06.slotKeywordLists, l = [Perm.pub.word, Perm.priv.word, Perm.prot.word]) ∧
@@ -180,6 +183,87 @@ theorem bare_rename_admits_repaired (u : UseA) (r l : Str) (ho : u.only = false)
     (hn : (u.items.map UItem.remote).Nodup) (hall : ∀ it ∈ u.items, ∃ a b, it = UItem.ren a b) :
     AdmitsCode u r l ↔ Admits u r l :=
   code_iff_admits_repaired u r l ho hf hn hall
+
+/-! ### One identifier, entities of several kinds (a derived type and its constructor)
+
+  F2018 15.4.3.4.1: "A generic name may be the same as a derived type name".  FORD keeps such a pair as an
+  entry of `pub_procs` (the generic interface) and an entry of `pub_types` (the type) under one key;
+  `getUsedAll u [pub_procs, pub_absints, pub_types, pub_vars]` is the tuple `get_used_entities` returns. -/
+
+/-- **A USE statement treats every kind of entity alike and separately**: each of the tables
+    `get_used_entities` returns is `getUsed` of the export table at the same position.  Whether an
+    identifier is imported as a type does not depend on whether a procedure, an abstract interface or a
+    variable of that name exists (the driver command `c06.used4` runs `getUsedAll` against the real
+    function with export tables that share identifiers). -/
+theorem import_tables_are_kindwise (u : UseA) (pubs : List Table) (i : Nat) :
+    (getUsedAll u pubs)[i]? = (pubs[i]?).map (getUsed u) :=
+  getUsedAll_get u pubs i
+
+/-- **An identifier named in an only-list (or admitted by a USE without ONLY) arrives in EVERY table in
+    which the module exports it**, under the one local name the standard gives it (`Admits`: F2018 14.2.2),
+    and nothing arrives in a table that is not an export of the same kind.  So `use m, only: t` and
+    `use m, only: d => t` import the derived type `t` *and* its constructor.  For every number of kinds,
+    every content of the other tables, every only-list without a repeated remote name. -/
+theorem shared_identifier_imported_in_every_kind (u : UseA) (pubs : List Table)
+    (hb : u.only = false → u.items = []) (hn : u.only = true → (u.items.map UItem.remote).Nodup) :
+    (∀ r l, Admits u r l → ∀ (i : Nat) (pub : Table) (e : Ent), pubs[i]? = some pub → (r, e) ∈ pub →
+        ∃ t, (getUsedAll u pubs)[i]? = some t ∧ hasKey t l) ∧
+    (∀ (i : Nat) (t : Table), (getUsedAll u pubs)[i]? = some t → ∀ p : Str × Ent, p ∈ t →
+        ∃ pub, pubs[i]? = some pub ∧ ∃ r, (r, p.2) ∈ pub ∧ Admits u r p.1) := by
+  constructor
+  · intro r l ha i pub e hi hm
+    exact getUsedAll_complete u pubs r l (code_of_admits u r l hb hn ha) i pub e hi hm
+  · intro i t ht p hp
+    obtain ⟨pub, hpub, r, hr, hc⟩ := getUsedAll_sound u pubs i t ht p hp
+    exact ⟨pub, hpub, r, hr, admits_of_code u r p.1 hb hc⟩
+
+/-- **End to end**: if module `n` exports the identifier `r` both as a procedure (`c`, the constructor) and
+    as a type (`t`), every scope with a USE statement of `n` that admits `r` under the local name `l`
+    has `l ↦ c` in `all_procs` and `l ↦ t` in `all_types` after the ranklist loop - across any chain of
+    re-exporting modules behind `n`, for any topological order; same hypotheses as `use_exact_partial`,
+    for the two kinds. -/
+theorem type_and_constructor_imported_together_partial (g : List Scope) (order : List Str)
+    (hu : UniqueNames g) (hb : NoBareRename g) (hr : NoRepeatedRemote g) (hp : NoEffectivePrivate g)
+    (hs0 : NoShadow g 0) (hs2 : NoShadow g 2) (hl : LegalAccess g) (hq : NoProtectedOverPrivate g)
+    (ht : isTopo g [] order = true) (m : Scope) (hm : m ∈ g) (hin : m.name ∈ order)
+    (hamb0 : ∀ l e e', Sees g 0 m l e → Sees g 0 m l e' → e = e')
+    (hamb2 : ∀ l e e', Sees g 2 m l e → Sees g 2 m l e' → e = e')
+    (u : UseA) (huse : u ∈ m.uses) (n : Scope) (hn : n ∈ g) (hmod : n.isMod = true) (hname : n.name = u.mod)
+    (r l : Str) (ha : Admits u r l) (c t : Ent) (hc : Exports g 0 n r c) (htp : Exports g 2 n r t) :
+    aget (getTabs (run 0 g order) m.name).all l = some c ∧
+    aget (getTabs (run 2 g order) m.name).all l = some t :=
+  ⟨(use_exact_partial g 0 order hu hb hr hp hs0 hl hq ht m hm hin hamb0 l c).2
+      (Sees.imp (Imports.mk hm huse hn hmod hname hc ha)),
+   (use_exact_partial g 2 order hu hb hr hp hs2 hl hq ht m hm hin hamb2 l t).2
+      (Sees.imp (Imports.mk hm huse hn hmod hname htp ha))⟩
+
+private def cM0 : Scope :=
+  { name := ['m', '0'], isMod := true, defPub := false, pubNames := [], privNames := [],
+    decls := [{ name := ['t'], kind := 2, accs := [.pub] }, { name := ['t'], kind := 0, accs := [.pub] },
+              { name := ['s'], kind := 0, accs := [] }],
+    uses := [] }
+private def cProg (rest : Str) : Scope :=
+  { name := ['p'], isMod := false, defPub := true, pubNames := [], privNames := [], decls := [],
+    uses := [mkUse ['m', '0'] rest] }
+
+/-- Kernel-evaluated instance: the default-private module `m0` declares `type t`, `interface t` (both
+    made public by `public :: t`) and a private procedure `s`.  `use m0, only: t`, `use m0, only: d => t`
+    and plain `use m0` give the program the type and the constructor under the same local name; the
+    private `s` never arrives; and on bare tables: an identifier shared by the procedure and the type
+    table comes out of both, one that only the variable table holds only of that one. -/
+theorem type_and_constructor_witness :
+    (∀ k ∈ [0, 2],
+      aget (getTabs (run k [cM0, cProg [',', ' ', 'o', 'n', 'l', 'y', ':', ' ', 't']] [['m', '0'], ['p']]) ['p']).all ['t']
+        = some (['m', '0'], ['t']) ∧
+      aget (getTabs (run k [cM0, cProg [',', ' ', 'o', 'n', 'l', 'y', ':', ' ', 'd', '=', '>', 't']] [['m', '0'], ['p']]) ['p']).all ['d']
+        = some (['m', '0'], ['t']) ∧
+      aget (getTabs (run k [cM0, cProg [',', ' ', 'o', 'n', 'l', 'y', ':', ' ', 'd', '=', '>', 't']] [['m', '0'], ['p']]) ['p']).all ['t']
+        = none ∧
+      (getTabs (run k [cM0, cProg []] [['m', '0'], ['p']]) ['p']).all = [(['t'], (['m', '0'], ['t']))]) ∧
+    getUsedAll (mkUse ['m'] [',', ' ', 'o', 'n', 'l', 'y', ':', ' ', 'd', '=', '>', 't', ',', 'v'])
+        [[(['t'], (['m'], ['t'])), (['s'], (['m'], ['s']))], [], [(['t'], (['m'], ['t']))], [(['v'], (['m'], ['v']))]]
+      = [[(['d'], (['m'], ['t']))], [], [(['d'], (['m'], ['t']))], [(['v'], (['m'], ['v']))]] := by
+  decide
 
 /-! ### USE association inside contained procedures (host association, F2018 19.5.1.4)
 
@@ -534,9 +618,10 @@ theorem generic_body_use_not_a_dependency_witness :
     (getTabs (runN 2 (bindG g []) (bindNs g [] ns) topo) ['s']).all = [(['t'], (['m', '0'], ['t']))] := by
   decide
 
-/-- The scan the model mirrors is the one in the working tree (regenerated from
-    ford/fortran_project.py on every run): `chain(modules, external_modules)` - the project's
-    `modules` before its `extModules` - and the assignment is followed by `break` (first match). -/
+/-- The scan the model mirrors is the one of the working tree, OBSERVED on every run (translate/c06.py calls
+    the real `find_used_modules` on stand-in objects and watches what the real `Project.correlate` hands to
+    it on a stub project): the project's `modules` are tried before its `extModules`, and of several
+    candidates of one name the first is taken. -/
 theorem binding_scan_is_source_scan :
     Generated.C06.bindingChain = chainOrder ∧
     Generated.C06.bindingChainArgs =
@@ -582,14 +667,20 @@ theorem intrinsic_nature_ignored_witness :
 
 /-! ### Tie of the scanners to the regular expressions in the source -/
 
-/-- The three regular expressions the scanners `parseUseStmt`, `onlyMatch`, `renameSearch`
-    mirror are, in the working tree, the ones they were written for (regenerated from
-    ford/sourceform.py on every run; flags 34 = IGNORECASE | UNICODE). -/
+/-- The three regular expressions the scanners `parseUseStmt`, `onlyMatch`, `renameSearch` mirror are, in
+    the working tree, the ones they were written for.  Pinned by MEANING: the generated constants are the
+    normal form of the *parsed* pattern (`re._parser`; translate/c06.py re-derives them from the compiled
+    objects on every run, re-compiles the normal form and compares it with the real object on every string
+    over a small alphabet) - so the layout of the source (re.VERBOSE, comments, redundant non-capturing
+    groups, `[\\s]` for `\\s`, the case of literals under IGNORECASE, how the flags are spelled) does not
+    matter, while any change of an alternative, repeat, class, assertion, anchor, flag or of the
+    capturing groups breaks this obligation in the same run (flags 34 = IGNORECASE | UNICODE). -/
 theorem regex_sources_pinned :
     Generated.C06.useReSrc = "^use(?:\\s*(?:,\\s*(?:non_)?intrinsic\\s*)?::\\s*|\\s+)(\\w+)\\s*($|,.*)" ∧
     Generated.C06.onlyReSrc = "^\\s*,\\s*only\\s*:\\s*(?=[^,])" ∧
     Generated.C06.renameReSrc = "(\\w+)\\s*=>\\s*(\\w+)" ∧
-    Generated.C06.useReFlags = 34 ∧ Generated.C06.onlyReFlags = 34 ∧ Generated.C06.renameReFlags = 34 := by
+    Generated.C06.useReFlags = 34 ∧ Generated.C06.onlyReFlags = 34 ∧ Generated.C06.renameReFlags = 34 ∧
+    Generated.C06.useReGroups = 2 ∧ Generated.C06.onlyReGroups = 0 ∧ Generated.C06.renameReGroups = 2 := by
   decide
 
 end Ford.C06
